@@ -713,7 +713,7 @@ class XsdAtomicBuiltin(XsdAtomic):
         if validation == 'skip':
             try:
                 return self.to_python(obj)
-            except (ValueError, TypeError, DecimalException):
+            except (ValueError, TypeError, ArithmeticError):
                 return raw_encode_value(obj)
 
         if self.patterns is not None:
